@@ -55,7 +55,7 @@ META = {
         "value of fractional seconds of xs:duration (float() is a C boundary)",
         "hour 24 equality for xs:time",
     ],
-    "stubs": ["CrossHair model pack (chmodels): format/str/int digit models", "datetime: CrossHair's pure-Python datetime for std_conv"],
+    "stubs": ["CrossHair model pack (chmodels): format/str/int digit models", "datetime: CrossHair's pure-Python datetime for naive std_conv; offset-aware conversions only on a concrete pool (std_conv_aware)"],
     "assumptions": ["z3 and CrossHair are sound for linear integer arithmetic and string/sequence theories used", "model pack validated against CPython on a boundary grid on every run"],
 }
 
@@ -227,17 +227,28 @@ def _parse_shape(p, ds):
     if not in_dom:
         return True  # offsets beyond +-14:00: outside the claim
     text = cur.text()
+    if "mg" in p:  # month-group partition (keeps the path tree of one job small)
+        lo, hi = p["mg"]
+        if lo == 0:
+            if 1 <= mo <= 12:
+                return True
+        elif not (lo <= mo <= hi):
+            return True
+    cls = {"date": XmlDate, "time": XmlTime, "datetime": XmlDateTime}[k]
+    # the real code runs first: its branches decide the path, the oracle below is then mostly determined
+    try:
+        v = cls.from_string(text)
+        got = tuple(v)
+    except ValueError:
+        got = None
+    if k in ("date", "datetime") and mo == 2 and d == 29 and y <= 0:
+        return True  # BCE leap years: outside the claim
     valid = lex_ok
     if k in ("date", "datetime"):
-        if mo == 2 and d == 29 and y <= 0:
-            return True  # BCE leap years: outside the claim
         valid = valid and _date_ok(y, mo, d)
     if k in ("time", "datetime"):
         valid = valid and _time_ok(h, mi, s, f)
-    cls = {"date": XmlDate, "time": XmlTime, "datetime": XmlDateTime}[k]
-    try:
-        v = cls.from_string(text)
-    except ValueError:
+    if got is None:
         return result(not valid)
     if k == "date":
         expect = (y, mo, d, off)
@@ -245,7 +256,7 @@ def _parse_shape(p, ds):
         expect = (h, mi, s, f, off)
     else:
         expect = (y, mo, d, h, mi, s, f, off)
-    return result(valid and tuple(v) == expect)
+    return result(valid and got == expect)
 
 
 def period_shape(d0: int, d1: int, d2: int, d3: int, d4: int, d5: int, d6: int, d7: int, d8: int, d9: int, d10: int, d11: int) -> bool:
@@ -297,6 +308,11 @@ def _period_shape(p, ds):
     if not in_dom:
         return True
     text = cur.text()
+    try:
+        v = XmlPeriod(text)
+        got = (v.year, v.month, v.day, v.offset)
+    except ValueError:
+        got = None
     valid = lex_ok
     if mo is not None:
         valid = valid and 1 <= mo <= 12
@@ -305,11 +321,9 @@ def _period_shape(p, ds):
             valid = valid and 1 <= d <= 31
         else:
             valid = valid and _date_ok(4, mo, d)  # gMonthDay: Feb 29 exists
-    try:
-        v = XmlPeriod(text)
-    except ValueError:
+    if got is None:
         return result(not valid)
-    return result(valid and (v.year, v.month, v.day, v.offset) == (y, mo, d, off))
+    return result(valid and got == (y, mo, d, off))
 
 
 _DUR_LET = "YMDHMS"
@@ -365,7 +379,8 @@ def _is_digits(s, lo, hi):
     if hi > len(s) or lo >= hi:
         return False
     for i in range(lo, hi):
-        if not ("0" <= s[i] <= "9"):
+        c = ord(s[i])  # integer comparison: decided by the solver without forking on string order
+        if c < 48 or c > 57:
             return False
     return True
 
@@ -385,9 +400,9 @@ def _lex_date(s, i0=0):
     if i < len(s) and s[i] == "-":
         i += 1
     j = i
-    while j < len(s) and "0" <= s[j] <= "9":
+    while j < len(s) and 48 <= ord(s[j]) <= 57:
         j += 1
-    if j - i < 4 or (j - i > 4 and s[i] == "0"):
+    if j - i < 4 or (j - i > 4 and ord(s[i]) == 48):
         return -1
     if not (j + 6 <= len(s) and s[j] == "-" and _is_digits(s, j + 1, j + 3) and s[j + 3] == "-" and _is_digits(s, j + 4, j + 6)):
         return -1
@@ -401,7 +416,7 @@ def _lex_time(s, i):
     j = i + 8
     if j < len(s) and s[j] == ".":
         k = j + 1
-        while k < len(s) and "0" <= s[k] <= "9":
+        while k < len(s) and 48 <= ord(s[k]) <= 57:
             k += 1
         if k == j + 1 or k - j - 1 > 9:
             return -1
@@ -410,6 +425,8 @@ def _lex_time(s, i):
 
 
 def _off_arg(sel, off):
+    if "offv" in PART:
+        return PART["offv"]
     kind = PART.get("off", "")
     if kind == "":
         return None
@@ -418,7 +435,28 @@ def _off_arg(sel, off):
     return off
 
 
+def _mg_pre(mo):
+    lo, hi = PART.get("mg", (1, 12))
+    return lo <= mo <= hi
+
+
+def _fc_pre(f):
+    """Partition of the fraction range by the branch format_time takes (keeps one job's path tree small)."""
+    fc = PART.get("fc")
+    if fc is None:
+        return True
+    if fc == 0:
+        return f == 0
+    if fc == 1:
+        return f % 1000 != 0
+    if fc == 2:
+        return f % 1000 == 0 and f % 1000000 != 0
+    return f != 0 and f % 1000000 == 0
+
+
 def _off_pre(off):
+    if "offv" in PART:
+        return off == PART["offv"]
     kind = PART.get("off", "")
     if kind == "+":
         return 1 <= off <= 840
@@ -434,6 +472,7 @@ def fmt_rt_time(h: int, mi: int, s: int, f: int, off: int) -> bool:
     pre: 0 <= s <= 59
     pre: 0 <= f <= 999999999
     pre: h < 24 or (mi == 0 and s == 0 and f == 0)
+    pre: _fc_pre(f)
     pre: _off_pre(off)
     post: _
     """
@@ -469,7 +508,7 @@ def fmt_rt_date(y: int, mo: int, d: int, off: int) -> bool:
 def fmt_rt_datetime(y: int, mo: int, d: int, h: int, mi: int, s: int, f: int, off: int) -> bool:
     """
     pre: -999999 <= y <= 999999
-    pre: 1 <= mo <= 12
+    pre: _mg_pre(mo)
     pre: 1 <= d <= 31
     pre: _date_ok(y, mo, d)
     pre: 0 <= h <= 24
@@ -477,6 +516,7 @@ def fmt_rt_datetime(y: int, mo: int, d: int, h: int, mi: int, s: int, f: int, of
     pre: 0 <= s <= 59
     pre: 0 <= f <= 999999999
     pre: h < 24 or (mi == 0 and s == 0 and f == 0)
+    pre: _fc_pre(f)
     pre: _off_pre(off)
     post: _
     """
@@ -552,6 +592,39 @@ def std_conv_date(y: int, mo: int, d: int, off: int) -> bool:
     back2 = XmlDate.from_date(t)
     return result((t.year, t.month, t.day) == (y, mo, d) and (t2.year, t2.month, t2.day, t2.hour, t2.minute) == (y, mo, d, 0, 0)
                   and off_ok and tuple(back) == (y, mo, d, o) and tuple(back2) == (y, mo, d, None))
+
+
+_AW_DATES = [(1, 1, 1), (1970, 1, 1), (2024, 2, 29), (9999, 12, 31), (1900, 2, 28)]
+_AW_TIMES = [(0, 0, 0, 0), (23, 59, 59, 999999), (12, 30, 15, 1000), (0, 0, 0, 1)]
+_AW_OFFS = [0, 1, -1, 60, 345, -330, 840, -840, 839]
+
+
+def std_conv_aware(i: int, j: int, k: int) -> bool:
+    """
+    pre: i == PART.get("i", 0)
+    pre: 0 <= j < PART.get("nj", 4)
+    pre: 0 <= k < PART.get("nk", 9)
+    post: _
+    """
+    # Selector driven (bounded-exhaustive): CrossHair realises a symbolic datetime as soon as utcoffset() meets the C
+    # timezone class (datetimelib._realized_if_concrete_tzinfo), so offset-aware conversions cannot stay value-symbolic.
+    y, mo, d = _AW_DATES[i]
+    h, mi, s, us = _AW_TIMES[j]
+    o = _AW_OFFS[k]
+    v = XmlDateTime(y, mo, d, h, mi, s, us * 1000, o)
+    t = v.to_datetime()
+    ok = (t.year, t.month, t.day, t.hour, t.minute, t.second, t.microsecond) == (y, mo, d, h, mi, s, us)
+    ok = ok and t.utcoffset() == _dt.timedelta(minutes=o) and tuple(XmlDateTime.from_datetime(t)) == (y, mo, d, h, mi, s, us * 1000, o)
+    # same instant: the UTC timestamp difference to the naive reading is exactly the offset
+    naive = _dt.datetime(y, mo, d, h, mi, s, us)
+    ok = ok and (t.replace(tzinfo=None) - naive) == _dt.timedelta(0)
+    tt = XmlTime(h, mi, s, us * 1000, o).to_time()
+    ok = ok and (tt.hour, tt.minute, tt.second, tt.microsecond) == (h, mi, s, us) and tt.utcoffset() == _dt.timedelta(minutes=o)
+    ok = ok and tuple(XmlTime.from_time(tt)) == (h, mi, s, us * 1000, o)
+    dd = XmlDate(y, mo, d, o).to_datetime()
+    ok = ok and (dd.year, dd.month, dd.day, dd.hour) == (y, mo, d, 0) and dd.utcoffset() == _dt.timedelta(minutes=o)
+    ok = ok and tuple(XmlDate.from_datetime(dd)) == (y, mo, d, o)
+    return result(ok)
 
 
 # ----------------------------------------------------------------------------- engine B
@@ -758,71 +831,161 @@ def z_timeline(part, timeout):
     return qs.result(detail)
 
 
+def z_timeline_lemma(part, timeout):
+    """Lemma route for large year ranges (only if the current source compares through a unary key function).
+
+    L1: key_code(x) - key_oracle(x) is one constant for every valid x with |year| <= ymax   (unary, cheap)
+    L2: each comparison operator is literally op(key_code(a), key_code(b))                     (congruence)
+    L1 and L2 together give: operator <=> oracle timeline order, for |year| <= ymax.
+    """
+    import operator as op
+
+    import z3
+
+    from pyz3 import SymObj, Translator, Unsupported, raise_condition, return_value
+    from pyz3.query import QuerySet
+    from xsdata.models import datatype
+
+    kind = part["kind"]
+    ymax = part.get("ymax", 10**6)
+    qs = QuerySet(timeout)
+    cls = XmlDateTime if kind == "datetime" else XmlTime
+    fields = cls._fields
+    keyfn = getattr(datatype, "_timeline_key", None)
+    if keyfn is None:
+        qs.unknown.append("not applicable on this tree: no unary key function `_timeline_key` in xsdata.models.datatype (the direct bounded query z_timeline decides alone)")
+        return qs.result()
+
+    def mk(prefix):
+        vs = {f: z3.Int(prefix + f) for f in fields}
+        g = vs.get
+        cons = []
+        if kind == "datetime":
+            y, mo, d = g("year"), g("month"), g("day")
+            leap = z3.And(y % 4 == 0, z3.Or(y % 100 != 0, y % 400 == 0))
+            mlen = z3.If(mo == 2, z3.If(leap, 29, 28), z3.If(z3.Or(mo == 4, mo == 6, mo == 9, mo == 11), 30, 31))
+            cons += [y >= -ymax, y <= ymax, mo >= 1, mo <= 12, d >= 1, d <= mlen]
+        h, mi, s_, fs, off = g("hour"), g("minute"), g("second"), g("fractional_second"), g("offset")
+        cons += [h >= 0, h <= 24, mi >= 0, mi <= 59, s_ >= 0, s_ <= 59, fs >= 0, fs <= 999999999, z3.Or(h < 24, z3.And(mi == 0, s_ == 0, fs == 0)), off >= -840, off <= 840]
+        return vs, cons
+
+    def okey(vs):
+        g = vs.get
+        if kind == "datetime":
+            leapf = lambda yy: z3.And(yy % 4 == 0, z3.Or(yy % 100 != 0, yy % 400 == 0))  # noqa: E731
+            secs = _days(g("year"), g("month"), g("day"), z3.If, leapf) * 86400
+        else:
+            secs = 0
+        secs = secs + g("hour") * 3600 + g("minute") * 60 + g("second") - g("offset") * 60
+        return secs * 1000000000 + g("fractional_second")
+
+    tr = Translator()
+    va, ca = mk("a_")
+    vb, cb = mk("b_")
+    a, b = SymObj(cls, **va), SymObj(cls, **vb)
+    try:
+        ka = return_value(tr.call(keyfn, [a]))
+        kb = return_value(tr.call(keyfn, [b]))
+        ops = {}
+        for name in ("__lt__", "__le__", "__eq__", "__gt__", "__ge__", "__ne__"):
+            outs = tr.call(getattr(cls, name), [a, b])
+            if raise_condition(outs) is not False:
+                raise Unsupported("comparison may raise")
+            ops[name] = return_value(outs)
+    except Unsupported as e:
+        qs.unsupported.append(str(e))
+        return qs.result()
+    ref = dict(zip(fields, (1, 1, 1, 0, 0, 0, 0, 0) if kind == "datetime" else (0, 0, 0, 0, 0)))
+    pairs = [(va[f], z3.IntVal(ref[f])) for f in fields]
+    cval = z3.simplify(z3.substitute(ka - okey(va), *pairs))
+    zv = list(va.values()) + list(vb.values())
+
+    def decode(vals):
+        return [kind, [vals["a_" + f] for f in fields], [vals.get("b_" + f, ref[f]) for f in fields]]
+
+    qs.check(f"L1 {kind}: key_code(x) - key_oracle(x) == const, |year| <= {ymax}", ka - okey(va) != cval, list(va.values()) + [z3.Int("b_" + f) for f in fields],
+             replay_fn="cmp_replay", decode=decode, assumptions=ca + [vb[f] == ref[f] for f in fields])
+    pyop = {"__lt__": op.lt, "__le__": op.le, "__eq__": op.eq, "__gt__": op.gt, "__ge__": op.ge, "__ne__": op.ne}
+    for name, term in ops.items():
+        qs.check(f"L2 {cls.__name__}.{name} == op(key_code(a), key_code(b))", term != pyop[name](ka, kb), zv, replay_fn="cmp_replay", decode=decode, assumptions=ca + cb)
+    qs.witness("domain satisfiable", z3.And(*(ca + cb + [ops["__lt__"]])))
+    return qs.result({"functions": sorted(tr.functions_seen), "ymax": ymax})
+
+
 PRE = {}
+
+
 EXPLAIN = {}
 
 # ----------------------------------------------------------------------------- plan
 _OFFS = ["", "Z", "+", "-"]
+_MGS = [[0, 0], [1, 4], [5, 8], [9, 12]]
 
 
 def plan(tier):
+    import itertools
+
     jobs = []
-    T = 240 if tier == "quick" else 900
     quick = tier == "quick"
+    T = 200 if quick else 900
     # --- parse shapes
     fws = [0, 1, 3, 9] if quick else list(range(10))
-    # time
     for fw in fws:
         for off in (_OFFS if not quick else (["", "+"] if fw in (1, 3) else _OFFS)):
             jobs.append(Job("parse_shape", {"k": "time", "fw": fw, "off": off}, T, 30))
     jobs.append(Job("parse_shape", {"k": "time", "fw": 0, "off": "Z", "pad": " "}, T, 30))
-    # date
     for sign in ("", "-"):
         for yw in (4, 5, 6):
-            for off in (_OFFS if not quick else (["", "-"] if (sign, yw) != ("", 4) else _OFFS)):
+            for off in (_OFFS if not quick else (["", "-"] if (sign, yw) != ("", 4) else ["", "Z", "+"])):
                 jobs.append(Job("parse_shape", {"k": "date", "sign": sign, "yw": yw, "off": off}, T, 30))
     jobs.append(Job("parse_shape", {"k": "date", "sign": "", "yw": 4, "off": "", "pad": " "}, T, 30))
-    # datetime
     if quick:
-        dts = [("", 4, 0, ""), ("", 4, 3, "Z"), ("-", 4, 0, "+"), ("", 5, 9, "-"), ("-", 6, 6, ""), ("", 4, 9, "+")]
+        dts = [("", 4, 0, ""), ("-", 5, 3, "Z")]
     else:
-        dts = [(sg, yw, fw, off) for sg in ("", "-") for yw in (4, 5, 6) for fw in (0, 1, 2, 3, 6, 9) for off in _OFFS]
+        dts = [(sg, yw, fw, off) for sg in ("", "-") for yw in (4, 5, 6) for fw in (0, 1, 3, 6, 9) for off in _OFFS]
     for sg, yw, fw, off in dts:
-        jobs.append(Job("parse_shape", {"k": "datetime", "sign": sg, "yw": yw, "fw": fw, "off": off}, T, 30))
-    # periods
+        for mg in [[0, 0], [1, 2], [3, 7], [8, 12]]:
+            jobs.append(Job("parse_shape", {"k": "datetime", "sign": sg, "yw": yw, "fw": fw, "off": off, "mg": mg}, T * 2, 40))
+    # --- periods
     for g in ("gYear", "gYearMonth", "gMonth", "gMonthLegacy", "gMonthDay", "gDay"):
         variants = [("", 4)] if g not in ("gYear", "gYearMonth") else ([("", 4), ("-", 4), ("", 5)] if quick else [(sg, yw) for sg in ("", "-") for yw in (4, 5, 6)])
         for sg, yw in variants:
             for off in (_OFFS if not quick else ["", "Z", "-"]):
                 jobs.append(Job("period_shape", {"k": "period", "g": g, "sign": sg, "yw": yw, "off": off}, T, 30))
-    # durations: subsets of components
+    # --- durations: subsets of components
     if quick:
         ws = [[1, 0, 0, 0, 0, 0], [0, 2, 0, 0, 0, 0], [0, 0, 1, 0, 0, 0], [0, 0, 0, 1, 0, 0], [0, 0, 0, 0, 2, 0], [0, 0, 0, 0, 0, 1],
               [1, 1, 1, 1, 1, 1], [2, 0, 1, 0, 0, 2], [0, 1, 0, 0, 1, 0], [0, 0, 0, 0, 0, 0], [3, 0, 0, 3, 0, 0]]
         signs = [""]
     else:
-        import itertools
-
         ws = [list(w) for w in itertools.product((0, 1), repeat=6)] + [[2, 2, 2, 2, 2, 2], [3, 0, 3, 0, 0, 3], [0, 3, 0, 3, 3, 0]]
         signs = ["", "-"]
     for w in ws:
         for sg in signs:
             jobs.append(Job("duration_shape", {"k": "duration", "w": w, "sign": sg}, T, 30))
     jobs.append(Job("duration_shape", {"k": "duration", "w": [1, 0, 0, 0, 1, 0], "sign": "-"}, T, 30))
-    # --- format / round trip
+    # --- format / round trip (partitioned by offset kind and by the branch format_time takes)
     for off in _OFFS:
-        jobs.append(Job("fmt_rt_time", {"off": off}, T, 30))
-        jobs.append(Job("fmt_rt_date", {"off": off}, T, 30))
-    for off in (_OFFS if not quick else ["", "-"]):
-        jobs.append(Job("fmt_rt_datetime", {"off": off}, T * 2, 40))
-    # --- stdlib conversions
-    for off in (["", "+"] if quick else _OFFS):
-        jobs.append(Job("std_conv_datetime", {"off": off}, T, 30))
-        jobs.append(Job("std_conv_time", {"off": off}, T, 30))
-        jobs.append(Job("std_conv_date", {"off": off}, T, 30))
+        for fc in range(4):
+            if quick and off in ("Z", "-") and fc in (2, 3):
+                continue
+            jobs.append(Job("fmt_rt_time", {"off": off, "fc": fc}, T, 30))
+        if not quick or off in ("", "-"):
+            jobs.append(Job("fmt_rt_date", {"off": off}, T, 30))
+    for off in (_OFFS if not quick else ["-"]):
+        for fc in (range(4) if not quick else (0, 1)):
+            for mg in [[1, 2], [3, 7], [8, 12]]:
+                jobs.append(Job("fmt_rt_datetime", {"off": off, "fc": fc, "mg": mg}, T * 2, 40))
+    # --- stdlib conversions (offset from a concrete pool: timezone()/timedelta normalisation forks heavily on a symbolic offset)
+    jobs.append(Job("std_conv_datetime", {"off": ""}, T, 30, note="naive values: all components symbolic"))
+    jobs.append(Job("std_conv_time", {"off": ""}, T, 30, note="naive values: all components symbolic"))
+    jobs.append(Job("std_conv_date", {"off": ""}, T, 30, note="naive values: all components symbolic"))
+    for i in range(len(_AW_DATES) if not quick else 3):
+        jobs.append(Job("std_conv_aware", {"i": i, "nj": 2 if quick else 4, "nk": 6 if quick else 9}, T, 30, note="offset-aware values: selector-driven enumeration of a concrete pool (C timezone realises symbolic datetimes)"))
     # --- engine B
     jobs.append(Job("z_calendar", {}, 120, kind="z3"))
     for kind in ("datetime", "time"):
         for offs in ("none", "both"):
-            jobs.append(Job("z_timeline", {"kind": kind, "offs": offs, "ymax": 9999}, 300 if quick else 1200, kind="z3"))
+            jobs.append(Job("z_timeline", {"kind": kind, "offs": offs, "ymax": 400 if quick else 2000}, 200 if quick else 1500, kind="z3"))
+        jobs.append(Job("z_timeline_lemma", {"kind": kind, "ymax": 10**6}, 120, kind="z3"))
     return jobs
